@@ -6001,8 +6001,8 @@ class State:
                     hand_type_indices = []
 
                     for k in self.hand_type_indices:
-                        for hand in self.get_up_hands(j, k):
-                            if hand is not None:
+                        for m in pot.player_indices:
+                            if self.get_up_hand(m, j, k) is not None:
                                 hand_type_indices.append(k)
 
                                 break
